@@ -69,7 +69,7 @@ def gen_case(rng, tier, idx):
         if c["kw"].get("timeframe") and not fill and not ha and rng.random() < 0.2:
             c["kw"]["timeframe_fill"] = True  # a member's own flag: inside a Hexital the Hexital-level setting is the effective one
             member_fill = True
-        members.append({"cfg": c, "form": rng.choice(["object", "dict", "settings", "settings", "settings_used"])})
+        members.append({"cfg": c, "form": rng.choice(["object", "dict", "settings", "settings", "settings_used", "object_used"])})
     if member_fill:
         rows = streams.make_rows(rng, n, "walk", step, "gaps", tf_s or unit * 3, max_gap_buckets=8)
     lifespan = None
@@ -135,6 +135,13 @@ def run_case(case):
         stats.setdefault("classes_seen", set()).add(cls_of(cfg))
         if m["form"] == "object":
             entries.append(ref)
+        elif m["form"] == "object_used":
+            # an indicator object that already lived on its own (other candles, readings computed, cursor moved) and is then handed to
+            # the Hexital: it is re-homed onto the Hexital's candles and must behave like a fresh one
+            used = configs.build(cfg, candles=rows_to_candles(rows[:14]))
+            used.calculate()
+            entries.append(used)
+            stats["used_objects_rehomed"] = stats.get("used_objects_rehomed", 0) + 1
         elif m["form"] == "dict":
             entries.append(configs.as_dict_form(cfg))
         elif m["form"] == "settings_used":
